@@ -401,7 +401,8 @@ def check_sites(acc: core.Acc, s: str, only_prefix: tuple = ()) -> None:
         _check_site(acc, name, fn, s, {'s': s, 'site': name})
         # a pair in order: the same site then writes and reads the string in the other letter case (and its casefold()), which
         # must come back as spelled - nothing remembered from the first string may be reused for the second
-        for variant in dict.fromkeys((s.swapcase(), s.casefold(), s.upper())):
+        # ... nor anything remembered under a key that treats the two slashes alike (path-like values: materials, models)
+        for variant in dict.fromkeys((s.swapcase(), s.casefold(), s.upper(), s.replace('\\', '/'), s.replace('/', '\\'))):
             if variant != s and len(variant) <= len(s) + 2:
                 _check_site(acc, name, fn, variant, {'s': variant, 'site': name, 'after': s})
 
@@ -437,6 +438,39 @@ def _check_site(acc: core.Acc, name: str, fn, s: str, case: dict) -> None:
                      site=name)
 
 
+FIRST_LEN = 2
+FIRST_STRINGS = ['', 'a', '\n', '"', '\\', '\t']
+
+
+def _first_call_body(s0: str, m0: bool, only: 'dict | None') -> list:
+    """Runs INSIDE the fresh interpreter."""
+    acc = core.Acc()
+    escape_text(s0, m0)
+    if only is not None:
+        check_one(acc, only['s'], only['multiline'], False)
+    else:
+        for n in range(FIRST_LEN + 1):
+            for tail in itertools.product(SIGMA, repeat=n):
+                for m in (False, True):
+                    check_one(acc, ''.join(tail), m, False)
+    out = []
+    for f in acc.all_failures():
+        f.case = dict(f.case, first_call=[s0, m0])
+        out.append(core.Failure(f.kind, f.case, f'after a first call escape_text({s0!r}, {m0}) in this process: ' + f.detail, dict(f.sig, first_call=True)))
+    return out
+
+
+def _first_call_run(s0: str, m0: bool, only: 'dict | None') -> list:
+    import json
+    import subprocess
+    import sys
+    r = subprocess.run([sys.executable, '-m', 'checks.c02', json.dumps([s0, m0, only])], capture_output=True, text=True, timeout=600)
+    if r.returncode != 0:
+        return [core.Failure('first_call_process_failed', {'s': '', 'multiline': m0, 'first_call': [s0, m0]},
+                             f'the interpreter running the history ended with status {r.returncode}: {r.stderr[-600:]}')]
+    return [core.Failure.from_json(d) for d in json.loads(r.stdout.splitlines()[-1])]
+
+
 def shard(spec) -> core.Acc:
     acc = core.Acc()
     kind = spec[0]
@@ -468,6 +502,15 @@ def shard(spec) -> core.Acc:
                         if n in (4096, 8191):
                             check_sites(acc, s_long, only_prefix=('kv.', 'vmf.value', 'dmx.attr_value'))
         acc.sample({'long_lengths': list(spec[1])}, 1)
+    elif kind == 'first':
+        # process histories: the FIRST escape_text call of an interpreter (string s0, mode m0), then every short string in
+        # both modes.  Lazily built module state (compiled patterns, tables) is decided by that first call, and a worker of
+        # this check has long made its first call, so each history runs in an interpreter of its own.
+        _, s0, m0 = spec
+        for f in _first_call_run(s0, m0, None):
+            acc.add_failure(f)
+        acc.evaluations += 2 * sum(len(SIGMA) ** n for n in range(FIRST_LEN + 1))
+        acc.count('first_call_histories', 1)
     elif kind == 'uni':
         _, lo, hi, contexts = spec
         for cp in range(lo, hi):
@@ -500,6 +543,9 @@ def run(ctx: core.Ctx) -> None:
                 shards.append(('sites', ''.join(c), n))
     for lens in ([255, 256, 257], [511, 512, 1000, 1001], [1023, 1024, 2047, 2048], [4095, 4096], [4097, 8191], [8192, 16384]):
         shards.append(('long', lens))
+    for s0 in FIRST_STRINGS:
+        for m0 in (False, True):
+            shards.append(('first', s0, m0))
     step = 0x1000
     for lo in range(0, 0x110000, step):
         shards.append(('uni', lo, lo + step, (lo < 0x10000) or not ctx.quick))
@@ -512,6 +558,7 @@ def run(ctx: core.Ctx) -> None:
                 f'comments, fixups, materials, cordon and visgroup names, every Output field with both separators incl. instance names, '
                 f'BSP entity-lump keys and values, DMX KV2 attribute names, values, array items, element names and types) and read back '
                 f'with that reader\'s tokenizer settings and by the format\'s own reader, each followed at the same site by its other-case / casefold() spelling; strings of length <= 3 also through every way of consuming a tokenizer, every two-chunk split and with allow_escapes switched on after construction. '
+                f'every string of length <= {FIRST_LEN} in both modes again in {2 * len(FIRST_STRINGS)} interpreters of their own, each after a different FIRST escape_text call of the process ({len(FIRST_STRINGS)} strings x both modes); '
                 f'Non-trivial = escape_text changes the string. Each (string, mode) pair is enumerated once.')
 
 
@@ -520,5 +567,14 @@ def replay(case: dict) -> list:
     if 'site' in case:
         check_sites(acc, case.get('after', case['s']))
         return [f for f in acc.all_failures() if f.case.get('site') == case['site'] and f.case.get('s') == case['s']]
+    if 'first_call' in case:
+        return _first_call_run(case['first_call'][0], case['first_call'][1], {'s': case['s'], 'multiline': case['multiline']})
     check_one(acc, case['s'], case['multiline'], True)
     return acc.all_failures()
+
+
+if __name__ == '__main__':
+    import json as _json
+    import sys as _sys
+    _s0, _m0, _only = _json.loads(_sys.argv[1])
+    print(_json.dumps([f.to_json() for f in _first_call_body(_s0, _m0, _only)]))
